@@ -63,6 +63,8 @@ class Workflow:
         self.queues = []      # [{"name","limit","members"}]
         self.rhn = 1
         self.extra = {}
+        self.datetime = False # render as daily datetime cycling (point i <-> ICP + (i-1) days)
+        self.expire = {}      # task -> clock-expire offset in hours (datetime mode only)
         self.xtrigs = {}      # label -> {"call": "echo(...)", "intvl": secs}
         self.xlines = []      # [{"rec": i, "xt": label, "rhs": task}]
 
@@ -73,7 +75,7 @@ class Workflow:
         if a["abs"]:
             s += "[^]"
         elif a["off"]:
-            s += "[%sP%d]" % ("-" if a["off"] < 0 else "+", abs(a["off"]))
+            s += "[%sP%d%s]" % ("-" if a["off"] < 0 else "+", abs(a["off"]), "D" if self.datetime else "")
         out = a["out"]
         if out == "succeeded":
             if t in self.succ_opt:
@@ -84,6 +86,8 @@ class Workflow:
             s += {"started": ":start", "submitted": ":submit"}[out]
         elif out == "submit-failed":
             s += ":submit-fail?"
+        elif out == "expired":
+            s += ":expire?"
         else:
             s += ":" + out + ("?" if self.custom[t][out] else "")
         return s
@@ -102,13 +106,35 @@ class Workflow:
             s += "?"
         return s
 
+    ICP_ISO = "20330518T0000Z"      # the virtual clock starts at 2033-05-18T03:33:20Z
+    def iso_point(self, i):
+        import datetime
+        d = datetime.datetime(2033, 5, 18) + datetime.timedelta(days=i - self.icp)
+        return d.strftime("%Y%m%dT%H%MZ")
+    def point_index(self):
+        return {self.iso_point(i): i for i in range(self.icp - 5, self.fcp + 6)}
+    def rec_text(self, text):
+        if not self.datetime:
+            return text
+        return {"P1": "P1D", "P2": "P2D", "P3": "P3D", "R1": "R1", "R1/+P1": "R1/+P1D", "R1/$": "R1/$",
+                "+P1/P2": "+P1D/P2D", "+P1/P1": "+P1D/P1D"}[text]
+    def expire_epoch(self, t, p):
+        """Expiry time of t at point p in seconds after the virtual clock's start (harness's own arithmetic)."""
+        icp_epoch = 1_999_987_200     # 2033-05-18T00:00:00Z
+        return icp_epoch + (p - self.icp) * 86400 + self.expire[t] * 3600 - 2_000_000_000
+
     def flow_text(self, extra_sched="", extra_runtime=""):
-        out = ["[scheduler]", "    allow implicit tasks = True", "    [[events]]",
+        out = ["[scheduler]", "    allow implicit tasks = True", "    UTC mode = True", "    [[events]]",
                "        stall timeout = PT0S", "        abort on stall timeout = False",
                "        inactivity timeout = P1Y", "        restart timeout = PT0S",
-               "[scheduling]", "    cycling mode = integer",
-               f"    initial cycle point = {self.icp}", f"    final cycle point = {self.fcp}",
-               f"    runahead limit = P{self.rhn}"]
+               "[scheduling]"]
+        if self.datetime:
+            out += [f"    initial cycle point = {self.iso_point(self.icp)}",
+                    f"    final cycle point = {self.iso_point(self.fcp)}"]
+        else:
+            out += ["    cycling mode = integer", f"    initial cycle point = {self.icp}",
+                    f"    final cycle point = {self.fcp}"]
+        out += [f"    runahead limit = P{self.rhn}"]
         if self.stop is not None:
             out.append(f"    stop after cycle point = {self.stop}")
         if extra_sched:
@@ -127,7 +153,7 @@ class Workflow:
             ls = [l for l in self.lines if l["rec"] == i]
             if not ls and not any(x["rec"] == i for x in self.xlines):
                 continue
-            out.append(f"        {r['text']} = \"\"\"")
+            out.append(f"        {self.rec_text(r['text'])} = \"\"\"")
             for xl in [x for x in self.xlines if x["rec"] == i]:
                 out.append(f"            @{xl['xt']} => " + self._rhs({"rhs": xl["rhs"], "suicide": False}))
             for l in ls:
@@ -148,10 +174,16 @@ class Workflow:
                 out.append("        [[[outputs]]]")
                 for o in self.custom[t]:
                     out.append(f"            {o} = msg_{o}")
-        if self.seqtasks:
+        if self.seqtasks or self.expire:
             # special tasks
             idx = out.index("    [[graph]]")
-            out[idx:idx] = ["    [[special tasks]]", "        sequential = " + ", ".join(sorted(self.seqtasks))]
+            sp = ["    [[special tasks]]"]
+            if self.seqtasks:
+                sp.append("        sequential = " + ", ".join(sorted(self.seqtasks)))
+            if self.expire:
+                sp.append("        clock-expire = " + ", ".join(
+                    f"{t}({'-' if h < 0 else ''}PT{abs(h)}H)" for t, h in sorted(self.expire.items())))
+            out[idx:idx] = sp
         if extra_runtime:
             out.append(extra_runtime)
         return "\n".join(out) + "\n"
@@ -199,7 +231,9 @@ class Workflow:
             "seqtasks": tla(set(self.seqtasks)),
             "req": tla_fn({t: set(self.required(t)) for t in self.tasks}),
             "customs": tla_fn({t: set((self.custom.get(t) or {}).keys()) for t in self.tasks}),
-            "optsucc": tla(set(self.succ_opt)), "optsubfail": tla(self.optsubfail()), "optexp": "{}",
+            "optsucc": tla(set(self.succ_opt)), "optsubfail": tla(self.optsubfail()),
+            "optexp": tla({t for t in self.tasks if self._referenced(t, "expired")}),
+            "expire": tla_fn({t: {p: self.expire_epoch(t, p) for p in range(self.icp, self.fcp + 1)} for t in self.expire}),
             "eretry": tla_fn({t: self.eretry.get(t, 0) for t in self.tasks}),
             "sretry": tla_fn({t: self.sretry.get(t, 0) for t in self.tasks}),
             "queues": "<<" + queues + ">>", "rhkind": '"count"', "rhn": str(self.rhn),
@@ -219,7 +253,7 @@ class Workflow:
 # ------------------------------------------------------------------------ generation
 def generate(rng: random.Random, *, features=None) -> Workflow:
     f = dict(max_tasks=4, max_fcp=4, retries=True, queues=True, sequential=True, custom=True, optional=True,
-             future=True, absolute=False, suicide=False, submit_fail=True, xtriggers=False)
+             future=True, absolute=False, suicide=False, submit_fail=True, xtriggers=False, expire=False)
     f.update(features or {})
     w = Workflow()
     w.fcp = rng.randint(2, f["max_fcp"])
@@ -230,11 +264,12 @@ def generate(rng: random.Random, *, features=None) -> Workflow:
         w.custom[t] = {}
         if f["optional"] and rng.random() < 0.3:
             w.succ_opt.add(t)
-        if f["custom"] and rng.random() < 0.4:
+        if f["custom"] and (f["custom"] == "always" or rng.random() < 0.4):
             w.custom[t]["x"] = rng.random() < 0.4
         if f["retries"]:
             w.eretry[t] = rng.choice([0, 0, 0, 1, 2]) if f["retries"] != "always" else rng.choice([1, 2])
             w.sretry[t] = (rng.choice([0, 0, 0, 1]) if f["retries"] != "always" else rng.choice([0, 1, 2])) if f["submit_fail"] else 0
+    w.expire_candidates = set(rng.sample(w.tasks, rng.randint(1, len(w.tasks)))) if f["expire"] else set()
     texts = rng.sample(sorted(set(REC_TEXTS)), rng.randint(1, 3))
     if not any(t.startswith("P") for t in texts):
         texts[0] = "P1"
@@ -264,7 +299,9 @@ def generate(rng: random.Random, *, features=None) -> Workflow:
             outs += ["failed", "failed"]
         if w.custom[t]:
             outs += ["x", "x"]
-        outs += ["started"] if rng.random() < 0.15 else []
+        outs += ["started"] if rng.random() < (0.4 if f.get("started") else 0.15) else []
+        if f["expire"] and t in w.expire_candidates and rng.random() < 0.5:
+            outs += ["expired", "expired"]
         if f["submit_fail"] and t in w.succ_opt and rng.random() < 0.1:
             outs += ["submit-failed"]
         return atom(t, off, rng.choice(outs))
@@ -299,6 +336,10 @@ def generate(rng: random.Random, *, features=None) -> Workflow:
                       for a in atoms_of(l["lhs"])) for l in w.lines)
         if not has_seq:
             w.lines.append({"rec": 0, "lhs": None, "rhs": t, "suicide": False})
+    if f["expire"]:
+        w.datetime = True
+        for t in sorted(w.expire_candidates):
+            w.expire[t] = rng.choice([-30, -6, 6, 30, 54])
     if f["xtriggers"]:
         w.xtrigs["xa"] = {"call": "echo(1, succeed=True)", "intvl": rng.choice([2, 3, 5])}
         w.xtrigs["xb"] = {"call": "echo(cp=%(point)s, succeed=True)", "intvl": rng.choice([2, 4])}
